@@ -105,7 +105,8 @@ class Circuit:
             effective_acks.extend(x["ID"] for x in message["Packets"])
         for ack in effective_acks:
             resend_info = self.unacked_reliable.pop((~message.direction, ack), None)
-            if resend_info:
+            # The waiter may have cancelled the future in the meantime (asyncio.wait_for() does on timeout)
+            if resend_info and not resend_info.completed.done():
                 resend_info.completed.set_result(None)
 
     def resend_unacked(self):
@@ -120,7 +121,8 @@ class Circuit:
             if not resend_info.tries_left:
                 logging.warning(f"Giving up on unacked {msg.packet_id}")
                 del self.unacked_reliable[(msg.direction, msg.packet_id)]
-                resend_info.completed.set_exception(TimeoutError("Exceeded resend limit"))
+                if not resend_info.completed.done():
+                    resend_info.completed.set_exception(TimeoutError("Exceeded resend limit"))
                 continue
             resend_info.last_resent = dt.datetime.now()
             msg.send_flags |= PacketFlags.RESENT
